@@ -195,7 +195,7 @@ def module_strategy():
             for _ in range(draw(st.integers(0, 2))):
                 add('%s')
             if draw(st.booleans()):
-                add('%s=None')
+                add('%s=' + draw(st.sampled_from(['None', 'None', 'lambda %s: 1' % name(), '{0 for %s in []}' % name()])))
             star = False
             if draw(st.integers(0, 2)) == 0:
                 add('*%s')
@@ -203,7 +203,9 @@ def module_strategy():
             if draw(st.integers(0, 2)) == 0:
                 if not star:
                     ps.append('*')
-                add('%s=0')
+                # defaults that bind names themselves: a lambda's parameters, a comprehension variable
+                dflt = draw(st.sampled_from(['0', '0', 'lambda %s: 0' % name(), '[0 for %s in []]' % name(), 'lambda %s, %s=1: 0' % (name(), fresh())]))
+                add('%s=' + dflt)
             if draw(st.integers(0, 2)) == 0:
                 add('**%s')
             return ', '.join(ps)
